@@ -152,12 +152,17 @@ func vfMapStr(m map[string][]string) string {
 
 func vfMetaClassify(c vfMetaCase) ([]string, bool) {
 	seen := map[string]int{}
-	bin := false
+	bin, undecodable := false, false
 	for _, h := range c.Headers {
 		k := strings.ToLower(h.Name)
 		seen[k]++
 		if strings.HasSuffix(k, "-bin") && len(h.Value) > 0 {
 			bin = true
+			for _, v := range h.Value {
+				if _, err := base64.RawStdEncoding.DecodeString(strings.TrimRight(v, "=")); err != nil {
+					undecodable = true
+				}
+			}
 		}
 	}
 	rep := false
@@ -173,13 +178,31 @@ func vfMetaClassify(c vfMetaCase) ([]string, bool) {
 	if bin {
 		cl = append(cl, "binary-key")
 	}
+	if undecodable {
+		cl = append(cl, "binary-value-not-base64")
+	}
 	return cl, rep || bin
 }
 
 // header list -> metadata.MD -> header list keeps every key and value.
 func TestVerifC18Meta(t *testing.T) {
 	verifkit.Run(t, "C18Meta", verifkit.Spec[vfMetaCase]{
-		Gen: func(t *rapid.T) vfMetaCase { return vfToCase(verifkit.GenHeaderList(t, "h", 5, true)) },
+		Gen: func(t *rapid.T) vfMetaCase {
+			c := vfToCase(verifkit.GenHeaderList(t, "h", 5, true))
+			// a -bin header whose value is not base64 at all: it is taken as the raw bytes (and so still encoded
+			// exactly once on the way out), never dropped
+			for i, h := range c.Headers {
+				if !strings.HasSuffix(strings.ToLower(h.Name), "-bin") {
+					continue
+				}
+				for j := range h.Value {
+					if rapid.IntRange(0, 4).Draw(t, "undecodable") == 0 {
+						c.Headers[i].Value[j] = rapid.SampledFrom([]string{"not base64!", "a", "ab=c", "%%%", "YWJj\n*"}).Draw(t, "raw-bin")
+					}
+				}
+			}
+			return c
+		},
 		Check: func(c vfMetaCase) error {
 			want := vfWantMeta(c)
 			md := ConvertProtoHeaderToMetadata(c.proto())
@@ -208,6 +231,17 @@ func TestVerifC18Meta(t *testing.T) {
 				return verifkit.Violf("meta-key-invented", "metadata %v has keys not in the input %v", md, c.Headers)
 			}
 			back := vfFlatten(ConvertMetadataToProtoHeader(md))
+			for key, vals := range want {
+				if !strings.HasSuffix(key, "-bin") {
+					continue
+				}
+				for i, v := range vals {
+					if _, err := base64.RawStdEncoding.DecodeString(v); err != nil {
+						// taken as raw bytes on the way in, encoded once on the way out
+						want[key][i] = base64.RawStdEncoding.EncodeToString([]byte(v))
+					}
+				}
+			}
 			if vfMapStr(back) != vfMapStr(want) {
 				return verifkit.Violf("meta-roundtrip", "header list -> metadata -> header list: got %s want %s", vfMapStr(back), vfMapStr(want))
 			}
